@@ -716,7 +716,9 @@ def o_edge_rows(spec, base):
         irow[i] = 0
         got = run_method(model, "pdf", irow)
         want = float(M.spec_pdf(spec, [[float(x) for x in irow]])[0])
-        if isinstance(got, dict) or not (got[0] >= 0) or (not math.isnan(want) and not vlib.close(got[0], want, rel=TOL, abs_=1e-290)):
+        if math.isnan(want):
+            continue          # scipy's own density is nan exactly at 0 for these parameters: not judged
+        if isinstance(got, dict) or not (got[0] >= 0) or not vlib.close(got[0], want, rel=TOL, abs_=1e-290):
             return ({"clause": "edge-of-support", "method": "pdf", "dtype": "int"}, "pdf(%r) = %r, independent product %r" % (irow, got, want))
     for bad in (float("inf"), float("nan")):
         row = list(base)
